@@ -4,7 +4,7 @@ set -u
 patch=$1; prop=$2; tier=${3:-quick}
 cd /repo || exit 2
 if ! git diff --quiet; then echo "/repo has uncommitted changes"; exit 2; fi
-if ! git apply --3way "$patch" 2>/tmp/seedtest.err && ! git apply "$patch" 2>>/tmp/seedtest.err; then echo "patch does not apply:"; cat /tmp/seedtest.err; git checkout -- . ; exit 2; fi
+if ! git apply "$patch" 2>/tmp/seedtest.err; then git reset -q; git checkout -- .; if ! git apply --3way "$patch" 2>>/tmp/seedtest.err; then echo "patch does not apply:"; cat /tmp/seedtest.err; git reset -q; git checkout -- . ; exit 2; fi; fi
 git reset -q 2>/dev/null
 ( cd ${VERIF_DIR:-/verif} && ./run "$prop" "$tier" ) 2>&1 | cut -c1-700 | grep -v '^  c[0-9]' | head -${SEEDLINES:-12}
 rc=${PIPESTATUS[0]}
